@@ -695,6 +695,92 @@ class Interp:
         st.iv[key] = iv2
         return True
 
+    # ------------------------------------------------------------ ranges
+    def bounds(self, st, v, depth=0):
+        """(lo, hi) of a numeric value under the path facts (interval arithmetic over its affine form)"""
+        if isinstance(v, bool):
+            return int(v), int(v)
+        if isinstance(v, int):
+            return v, v
+        if depth > 8 or not isinstance(v, tuple) or v == TOP:
+            return -INF, INF
+        if v[0] == "lin":
+            key, f = canon(dict(v[1]))
+            iv = st.iv.get(key)
+            lo = hi = None
+            if iv is not None and f != 0:
+                a, b = iv.lo * f, iv.hi * f
+                lo, hi = (min(a, b) + v[2], max(a, b) + v[2])
+            slo = shi = v[2]
+            for a, k in v[1]:
+                l, h = self.bounds(st, a, depth + 1)
+                if k >= 0:
+                    slo += k * l
+                    shi += k * h
+                else:
+                    slo += k * h
+                    shi += k * l
+            if lo is None:
+                return slo, shi
+            return max(lo, slo), min(hi, shi)
+        lo, hi = -INF, INF
+        if v[0] in ("trunc", "cast") and v[1] in INT_BITS and not v[1].startswith("i"):
+            lo, hi = 0, (1 << INT_BITS[v[1]]) - 1
+            il, ih = self.bounds(st, v[2], depth + 1)
+            if il >= 0 and ih <= hi:
+                lo, hi = il, ih
+        elif v[0] == "bufread":
+            w = v[3]
+            if isinstance(w, int):
+                lo, hi = 0, (1 << (8 * w)) - 1
+        elif v[0] in ("len", "len0"):
+            lo = 0
+        elif v[0] == "min":
+            a, b = self.bounds(st, v[1], depth + 1), self.bounds(st, v[2], depth + 1)
+            lo, hi = min(a[0], b[0]), min(a[1], b[1])
+        elif v[0] == "max":
+            a, b = self.bounds(st, v[1], depth + 1), self.bounds(st, v[2], depth + 1)
+            lo, hi = max(a[0], b[0]), max(a[1], b[1])
+        key, f = canon({v: 1})
+        iv = st.iv.get(key)
+        if iv is not None:
+            lo, hi = max(lo, iv.lo), min(hi, iv.hi)
+        return lo, hi
+
+    def check_overflow(self, st, base, a, b, oty):
+        """'safe' | 'panics' | 'unknown' for an overflow-checked a (base) b of type oty"""
+        bits = INT_BITS.get(oty)
+        if not bits:
+            return "unknown"
+        signed = oty.startswith("i")
+        tmin = -(1 << (bits - 1)) if signed else 0
+        tmax = (1 << (bits - 1)) - 1 if signed else (1 << bits) - 1
+        if not signed:
+            self.type_range(st, a, oty)
+            self.type_range(st, b, oty)
+        if base == "Sub" and not signed:
+            d = self.decide_cmp(st, "Ge", a, b, oty)
+            if d is True:
+                return "safe"
+            if d is False:
+                return "panics"
+        la, ha = self.bounds(st, a)
+        lb, hb = self.bounds(st, b)
+        if base == "Add":
+            lo, hi = la + lb, ha + hb
+        elif base == "Sub":
+            lo, hi = la - hb, ha - lb
+        elif base == "Mul":
+            c = [la * lb, la * hb, ha * lb, ha * hb] if all(x not in (INF, -INF) for x in (la, lb, ha, hb)) else [-INF, INF]
+            lo, hi = min(c), max(c)
+        else:
+            return "unknown"
+        if lo >= tmin and hi <= tmax:
+            return "safe"
+        if hi < tmin or lo > tmax:
+            return "panics"
+        return "unknown"
+
     # ------------------------------------------------------------ rvalues
     def rvalue(self, st, frame, body, rv, site, span):
         k = rv.k
@@ -742,7 +828,7 @@ class Interp:
             return ("unop", rv.op, tform(a))
         if k == "cast":
             a = self.operand(st, frame, rv.ops[0])
-            return self.cast(a, rv.j.get("kind", ""), rv.j.get("oty"), rv.j.get("ty"))
+            return self.cast(st, a, rv.j.get("kind", ""), rv.j.get("oty"), rv.j.get("ty"))
         if k == "discr":
             v = self.read_place(st, frame, rv.place)
             return self.discr_of(st, v)
@@ -781,7 +867,7 @@ class Interp:
             return t
         return TOP
 
-    def cast(self, a, kind, oty, ty):
+    def cast(self, st, a, kind, oty, ty):
         if kind.startswith("IntToInt") or kind.startswith("Transmute") and False:
             bits = INT_BITS.get(ty)
             obits = INT_BITS.get(oty)
@@ -797,6 +883,10 @@ class Interp:
                 return a
             if isinstance(a, tuple) and a[0] == "discr":
                 return a
+            if bits and not ty.startswith("i"):
+                lo, hi = self.bounds(st, a)
+                if lo >= 0 and hi <= (1 << bits) - 1:
+                    return a  # provably lossless under the path facts
             return ("trunc", ty, tform(a))
         if kind.startswith("PointerCoercion") or kind.startswith("PtrToPtr") or kind.startswith("Subtype"):
             return a
@@ -818,7 +908,7 @@ class Interp:
                     return TupleV([r & ((1 << bits) - 1), 1 if ov else 0])
                 r &= (1 << bits) - 1
             if with_ov:
-                return TupleV([r, ("ovf", base, tform(a), tform(b), site)])
+                return TupleV([r, ("ovf", base, tform(a), tform(b), oty, site)])
             return r
         if base == "Mul":
             r = None
@@ -829,7 +919,7 @@ class Interp:
             if r is None:
                 r = ("binop", "Mul", tform(a), tform(b))
             if with_ov:
-                return TupleV([r, ("ovf", base, tform(a), tform(b), site) if not isinstance(r, int) else 0])
+                return TupleV([r, ("ovf", base, tform(a), tform(b), oty, site) if not isinstance(r, int) else 0])
             return r
         if base in CMP_FLIP:
             d = self.decide_cmp(st, base, a, b, oty)
@@ -861,8 +951,13 @@ class Interp:
         if seeds:
             seeds(st)
         out = []
+        self.panic_paths = []
         for s, ret in self.call_body(body, args, st, 0):
-            out.append(PathResult(s, ret, s.cut))
+            pr = PathResult(s, ret, s.cut)
+            if s.cut and (s.cut.startswith("panic") or s.cut.startswith("diverges")):
+                self.panic_paths.append(pr)
+            else:
+                out.append(pr)
         return out
 
     def call_body(self, body, args, st, depth, rust_call=False):
@@ -937,9 +1032,30 @@ class Interp:
         if k == "assert":
             c = self.operand(st, frame, t.cond)
             exp = 1 if t.j["expected"] else 0
-            if isinstance(c, int) and c != exp:
-                st.events.append(Event("panic", "assert:" + t.msg.get("kind", "?"), [], site0, t.span, tuple(self.ctx)))
-                return []
+            kind = t.msg.get("kind", "?")
+            if isinstance(c, int):
+                if c != exp:
+                    st.events.append(Event("panic", "assert:" + kind, [], site0, t.span, tuple(self.ctx)))
+                    st.cut = "panic: assert %s" % kind
+                    return [("ret", st, ("cut",))]
+                return [("go", st, t.t)]
+            status = "unknown"
+            desc = [kind, t.msg.get("op")]
+            if isinstance(c, tuple) and c and c[0] == "ovf":
+                _, base, a, b, oty, _site = c
+                status = self.check_overflow(st, base, a, b, oty)
+                desc = ["Overflow", base, a, b, oty]
+            elif kind == "BoundsCheck":
+                ln = self.operand(st, frame, Operand_from(t.msg["len"]))
+                ix = self.operand(st, frame, Operand_from(t.msg["index"]))
+                d = self.decide_cmp(st, "Lt", ix, ln, "usize")
+                status = "safe" if d is True else ("panics" if d is False else "unknown")
+                desc = ["BoundsCheck", None, ix, ln, "usize"]
+            st.events.append(Event("obligation", "assert:" + kind, desc, site0, t.span, tuple(self.ctx), extra={"status": status, "body": body.path}))
+            if status == "panics":
+                st.events.append(Event("panic", "assert:" + kind, desc, site0, t.span, tuple(self.ctx)))
+                st.cut = "panic: assert %s" % kind
+                return [("ret", st, ("cut",))]
             return [("go", st, t.t)]
         if k == "yield":
             st.events.append(Event("yield", "yield", [], site0, t.span, tuple(self.ctx)))
@@ -1108,6 +1224,8 @@ class Interp:
                 out.append(("ret", s2, ("cut",)))
                 continue
             if ret is DIVERGE or t.t is None:
+                s2.cut = "panic: %s" % name if ret is DIVERGE else "diverges: %s" % name
+                out.append(("ret", s2, ("cut",)))
                 continue
             self.write_place(s2, frame, t.dest, ret, body, site, t.span)
             out.append(("go", s2, t.t))
@@ -1162,6 +1280,12 @@ class Interp:
 
 
 DIVERGE = ("diverge",)
+
+
+def Operand_from(j):
+    from mir import Operand
+
+    return Operand(j)
 
 
 def path_names(path):
